@@ -213,6 +213,16 @@ def run(c):
     c.trusted += ["modelled, not verified: Model/Rewriter.v (extraction from the parsed SELECT) is hand-written; tied by comparing its outcome with the real rewriter on the printed text",
                   "outside the model: sqlglot's parser (text -> tree) and printer of filter atoms; the harness's own SQL printer for the renderings; yardstick / multi-statement / CTE rewriting are exercised end to end only",
                   "DuckDB executes both paths"]
+    try:
+        import os
+        from translator import gen_rewriter
+        lib.write_if_changed(os.path.join(lib.COQ, "Gen", "RewriterTable_gen.v"), gen_rewriter.generate(lib.REPO))
+        c.obligation("translator: behaviour table of _extract_metrics_and_dimensions / _resolve_column (330 scripted SELECT lists, scripted sqlglot classes and graph) regenerated", True, "translator")
+        same = gen_rewriter.table(lib.REPO) == gen_rewriter.table(lib.REPO, real=True)
+        c.obligation("translator validation: interpreted _extract_metrics_and_dimensions == the real method under CPython on the same scripted SELECT lists", same, "translator")
+    except Exception as e:
+        c.obligation("translator: behaviour table of _extract_metrics_and_dimensions regenerated", False, "translator", repr(e)[-900:])
+    c.trusted.append("translator/pyinterp.py + gen_rewriter.py (fail-closed definitional interpreter; sqlglot's expression classes and the graph are scripted: the table covers the methods' own logic, not sqlglot's parser)")
     c.build_props()
     n = 110 if c.tier == "quick" else 1800
     cases = [(gen_data(c.rng), gen_query(c.rng)) for _ in range(n)]
